@@ -198,7 +198,25 @@ pub fn c17(ctx: &mut Ctx) {
         };
         // every fourth case selects by namespace through a caller binding (--setns)
         let uris: Vec<String> = { let mut v: Vec<String> = vec![]; for n in &tree.nodes { if n.kind == RKind::Elem { if let Some(u) = &n.uri { if !v.contains(u) && !u.contains(' ') { v.push(u.clone()); } } } } v };
-        let (sel_kind, expr, ns): (&str, String, Vec<(String, String)>) = if i % 4 == 3 && !uris.is_empty() { ("by-namespace", "//c0:*".to_string(), vec![("c0".to_string(), r.pick(&uris).clone())]) } else { (sel_kind, expr, vec![]) };
+        // ... or through the default namespace of the caller (--setns xmlns=uri), which stands for a prefix on element names
+        let mut default_setns: Option<String> = None;
+        let mut default_ast: Option<xp::Expr> = None;
+        let (sel_kind, expr, ns): (&str, String, Vec<(String, String)>) = if (i % 8 == 3 || i % 8 == 6) && !uris.is_empty() {
+            let u = r.pick(&uris).clone();
+            if r.chance(1, 2) {
+                let locals: Vec<String> = { let mut v: Vec<String> = vec![]; for n in &tree.nodes { if n.kind == RKind::Elem && n.uri.as_deref() == Some(u.as_str()) && !v.contains(&n.local) { v.push(n.local.clone()); } } v };
+                let l = r.pick(&locals).clone();
+                default_setns = Some(u.clone());
+                let step = |test: xp::Test, axis: xp::Axis, dslash: bool| xp::Step { axis, test, preds: vec![], dslash };
+                let (s, a) = match r.below(3) {
+                    0 => (format!("//{}", l), xp::Expr::Path(xp::Start::Root, vec![step(xp::Test::Name(Some("c0".into()), l.clone()), xp::Axis::Child, true)])),
+                    1 => (format!("count(//{})", l), xp::Expr::Func("count".into(), vec![xp::Expr::Path(xp::Start::Root, vec![step(xp::Test::Name(Some("c0".into()), l.clone()), xp::Axis::Child, true)])])),
+                    _ => (format!("//{}/@*", l), xp::Expr::Path(xp::Start::Root, vec![step(xp::Test::Name(Some("c0".into()), l.clone()), xp::Axis::Child, true), step(xp::Test::Any, xp::Axis::Attribute, false)])),
+                };
+                default_ast = Some(a);
+                ("by-default-namespace", s, vec![("c0".to_string(), u)])
+            } else { ("by-namespace", "//c0:*".to_string(), vec![("c0".to_string(), u)]) }
+        } else { (sel_kind, expr, vec![]) };
         // every third case takes its path from the expression generator of C05 (any node-set or scalar expression outside the
         // zones of recorded findings: the reference must give the same answer under every bug-compatible switch)
         let mut generated: Option<xp::Expr> = None;
@@ -231,12 +249,12 @@ pub fn c17(ctx: &mut Ctx) {
             generated = Some(e);
             ("reverse-axis-from-one-node", s, vec![])
         } else { (sel_kind, expr, ns) };
-        let ast = if let Some(e) = generated { e } else if sel_kind == "by-namespace" { xp::Expr::Path(xp::Start::Root, vec![xp::Step { axis: xp::Axis::Child, test: xp::Test::NsAny("c0".into()), preds: vec![], dslash: true }]) } else { match parse_expr(&expr, &tree) { Some(a) => a, None => { ctx.inconclusive("expression_outside_harness_table"); continue; } } };
+        let ast = if let Some(e) = generated { e } else if let Some(a) = default_ast.take() { a } else if sel_kind == "by-namespace" { xp::Expr::Path(xp::Start::Root, vec![xp::Step { axis: xp::Axis::Child, test: xp::Test::NsAny("c0".into()), preds: vec![], dslash: true }]) } else { match parse_expr(&expr, &tree) { Some(a) => a, None => { ctx.inconclusive("expression_outside_harness_table"); continue; } } };
         let exp = ref_eval(&tree, &ast, &ns, None);
         let via_file = r.chance(1, 3);
         let path = format!("{}/c17-{}-{}.xml", std::env::temp_dir().display(), std::process::id(), i);
         if via_file { if std::fs::write(&path, &text).is_err() { ctx.inconclusive("cannot_write_temp_file"); continue; } }
-        let base_args = |extra: Vec<String>| -> Vec<String> { let mut a = extra; for (p, u) in &ns { a.push("--setns".into()); a.push(format!("xmlns:{}={}", p, u)); } if via_file { a.push(path.clone()); } a };
+        let base_args = |extra: Vec<String>| -> Vec<String> { let mut a = extra; if let Some(u) = &default_setns { a.push("--setns".into()); a.push(format!("xmlns={}", u)); } else { for (p, u) in &ns { a.push("--setns".into()); a.push(format!("xmlns:{}={}", p, u)); } } if via_file { a.push(path.clone()); } a };
         let stdin = if via_file { None } else { Some(text.as_str()) };
         let ctxs = |args: &[String]| format!("args {:?} :: doc {}", args, text);
 
